@@ -96,6 +96,9 @@ def actors(plan, r, nh, nact=None, suspend=True, bounds=True, prios=True, io=Tru
                 # (communications are not suspended here: suspending one during its latency phase is the listed
                 # finding C19/suspend-in-latency)
                 s = r.choice(execs)
+                if prios and r.chance(0.4):
+                    # a priority change and a suspend of the same activity at one date (two updates in one round)
+                    ops.append(['set_prio', s, r.choice([0.5, 2.0, 4.0])])
                 ops.append(['asuspend', s])
                 ops.append(['sleep', r.randint(1, 4) * 0.25])
                 ops.append(['aresume', s])
